@@ -43,6 +43,11 @@ fn soak_parser(cfg: &ParserCfg) -> Arc<CooklangParser> {
 
 pub static NO_SOAK: std::sync::atomic::AtomicBool = std::sync::atomic::AtomicBool::new(false);
 
+/// set once an execution with two or more simulated threads has run in this process
+pub static MULTI_TASK_SEEN: std::sync::atomic::AtomicBool = std::sync::atomic::AtomicBool::new(false);
+/// reference phases that included the other-OS-thread pass
+pub static THREAD_PASSES: std::sync::atomic::AtomicU64 = std::sync::atomic::AtomicU64::new(0);
+
 /// the scenario being executed, for re-entrant nested operations started from a seam
 static ENV: std::sync::RwLock<Option<Arc<Env>>> = std::sync::RwLock::new(None);
 
@@ -918,6 +923,10 @@ pub struct RunStats {
     pub clock_reads: u64,
     #[serde(default)]
     pub clock_sleeps: u64,
+    /// simulated time that passed during the execution (clock jumps of the wall clock not counted:
+    /// this is the monotonic clock, which advances by stalls, sleeps and per read)
+    #[serde(default)]
+    pub sim_time_ns: u64,
 }
 
 pub struct RefPhase {
@@ -1181,8 +1190,14 @@ fn reference_phase_inner2(sc: &Scenario, reverse: bool) -> RefPhase {
     // a small stack, fresh thread-locals (its first library call ever) and nothing of this
     // thread's history. Which thread calls is not an input. (Normal build only: the rewritten
     // primitives of the shadow build work inside an execution only.)
+    // Only while this OS thread is still "clean": simulated threads are coroutines on the worker's
+    // one OS thread and share its thread-locals, so an execution with two or more of them can
+    // leave a thread-local in a state no real execution produces (two save/restore guards that
+    // interleave). After that, this thread and a fresh one may differ for a reason that is an
+    // artifact of the simulation. Every cold-start process and the first scenarios of every
+    // worker qualify.
     #[cfg(not(feature = "shadow"))]
-    {
+    if !MULTI_TASK_SEEN.load(std::sync::atomic::Ordering::Relaxed) {
         let mut seen5 = std::collections::BTreeSet::new();
         let todo: Vec<Op> = env.refs.keys().cloned().collect::<Vec<_>>().into_iter().filter_map(|k| {
             sc.all_ops().into_iter().find(|op| {
@@ -1197,6 +1212,7 @@ fn reference_phase_inner2(sc: &Scenario, reverse: bool) -> RefPhase {
             })
         }).filter(|op| seen5.insert(full_key(sc, op))).take(6).collect();
         if !todo.is_empty() {
+            THREAD_PASSES.fetch_add(1, std::sync::atomic::Ordering::Relaxed);
             let sc2 = sc.clone();
             let hs = sc.hash_seed;
             let handle = std::thread::Builder::new().name(format!("pool-worker-{}", hs % 7)).stack_size(1 << 20).spawn(move || {
@@ -1344,8 +1360,12 @@ pub fn execute(rp: &RefPhase, sched: &SchedSpec, want_log: bool) -> (Vec<Violati
     });
     cooklang::verif_seam::reseed(env.sc.hash_seed ^ 0x9999);
     env_set(Some(env.clone()));
+    if env.sc.threads.len() >= 2 {
+        MULTI_TASK_SEEN.store(true, std::sync::atomic::Ordering::Relaxed);
+    }
     crate::clock::set(&crate::clock::ClockSpec::base());
     let (reads0, sleeps0) = (crate::clock::reads(), crate::clock::sleeps());
+    let sim_t0 = crate::clock::now_ns();
     let scheduler = SimScheduler::new(sched.clone());
     let record = scheduler.record.clone();
     let mut cfg = shuttle::Config::new();
@@ -1397,6 +1417,7 @@ pub fn execute(rp: &RefPhase, sched: &SchedSpec, want_log: bool) -> (Vec<Violati
     }
     #[cfg(not(feature = "shadow"))]
     post_phase(&env);
+    let sim_time_ns = (crate::clock::now_ns() - sim_t0).max(0) as u64;
     crate::clock::passthrough();
     // (shuttle's runner itself reads the clock a fixed number of times per execution: calibrated
     // once per process on an empty execution, see `calibrate_clock_overhead`)
@@ -1417,6 +1438,7 @@ pub fn execute(rp: &RefPhase, sched: &SchedSpec, want_log: bool) -> (Vec<Violati
             step_cap_hit: s.step_cap_hit,
             clock_reads,
             clock_sleeps,
+            sim_time_ns,
         };
         let mut v = std::mem::take(&mut s.violations);
         if s.step_cap_hit {
@@ -1628,7 +1650,9 @@ pub struct DepthCase {
 fn depth_outer_text(dc: &DepthCase) -> String {
     match dc.flavour.as_str() {
         "validator" if !dc.outer.starts_with("---") => format!(">> note: x\n{}", dc.outer),
-        "ref_check" => format!("Serve with @@side dish{{}}.\n\n{}", dc.outer),
+        // (a plain reference or a path-style one with a directory, by the text's hash)
+        "ref_check" if fnv(dc.outer.as_bytes()) % 2 == 0 => format!("Serve with @@side dish{{}}.\n\n{}", dc.outer),
+        "ref_check" => format!("Serve with @@./sides/green salad{{}} or @@../base/stock{{}}.\n\n{}", dc.outer),
         _ => dc.outer.clone(),
     }
 }
@@ -1664,18 +1688,20 @@ fn depth_level(parser: &CooklangParser, dc: &DepthCase, outer: &str, level: u32,
         }
         "validator" => {
             let mut o = ParseOptions::default();
-            o.metadata_validator = Some(Box::new(|_k: &serde_yaml::Value, _v: &serde_yaml::Value, _o: &mut analysis::CheckOptions| {
+            // (verdicts are a function of the arguments, as an application's would be: what the
+            // library hands to the callback is thereby part of the fingerprint)
+            o.metadata_validator = Some(Box::new(|k: &serde_yaml::Value, v: &serde_yaml::Value, _o: &mut analysis::CheckOptions| {
                 hook();
-                CheckResult::Ok
+                verdict(11, &format!("{k:?}={v:?}"), 4)
             }));
             let r = parser.parse_with_options(outer, o);
             fp_result(&r, outer, conv)
         }
         _ => {
             let mut o = ParseOptions::default();
-            o.recipe_ref_check = Some(Box::new(|_name: &str| {
+            o.recipe_ref_check = Some(Box::new(|name: &str| {
                 hook();
-                CheckResult::Ok
+                verdict(13, name, 2)
             }));
             let r = parser.parse_with_options(outer, o);
             fp_result(&r, outer, conv)
